@@ -1,4 +1,8 @@
-"""C09 -- humidity measures and saturation pressures (typhon/physics/atmosphere.py)."""
+"""C09 -- humidity measures and saturation pressures (typhon/physics/atmosphere.py).
+
+Contracts state each real function as its documented closed form over the reals;
+theorem programs (clients of those contracts) state the clauses of the property.
+"""
 from pyvc.dsl import *
 from typhon.physics import atmosphere as A
 from typhon import constants
@@ -6,9 +10,18 @@ from typhon import constants
 P = "C09"
 M = "typhon.physics.atmosphere:"
 
+NOT_DECIDED = [
+    "strict monotonicity of e_eq_water_mk (tanh-blended formula): a numeric fact about a transcendental expression",
+    "e_eq_ice_mk <= e_eq_water_mk below the triple point and 1e-6 relative agreement at T_t",
+    "behaviour 'to within one ulp' of the branch temperatures (floats are read as reals, A2)",
+]
+ASSUMPTIONS = [
+    "A6 analytic axiom schemas about exp/log/tanh instantiated on occurring terms (exp_pos, exp_mono, log_mono, log_concave_bound, ...)",
+]
+
+EPS = "constants.molar_mass_water / constants.molar_mass_dry_air"
+
 # ---------------------------------------------------------------- converters
-# Each contract states the converter as the documented closed form; the
-# requires-clauses are the domain of the property (0 <= x, q < 1; w >= 0).
 contract(M + "vmr2mixing_ratio", prop=P, params=dict(x="real"), elementwise=True,
          requires=["0 <= x", "x < 1"],
          ensures=["result == x / (1 - x) * constants.molar_mass_water / constants.molar_mass_dry_air",
@@ -33,16 +46,213 @@ contract(M + "vmr2specific_humidity", prop=P, params=dict(x="real"), elementwise
          ensures=["result == x / ((1 - x) * constants.molar_mass_dry_air / constants.molar_mass_water + x)",
                   "0 <= result", "result < 1"])
 
+for _c in ("vmr2mixing_ratio", "specific_humidity2mixing_ratio", "specific_humidity2vmr", "vmr2specific_humidity"):
+    REG.by_label[M + _c].domain = {"x": (0.0, 0.999), "q": (0.0, 0.999)}
+for _c in ("mixing_ratio2vmr", "mixing_ratio2specific_humidity"):
+    REG.by_label[M + _c].domain = {"w": (0.0, 20.0)}
 
+
+# the six inverse pairs ---------------------------------------------------------
 @theorem(P, "inverse-x-w")
 def thm_inverse_x_w(x: "real"):
     requires(0 <= x, x < 1)
     w = A.vmr2mixing_ratio(x)
-    ensures(A.mixing_ratio2vmr(w) == x, id="w2x(x2w(x))==x")
+    back = A.mixing_ratio2vmr(w)
+    ensures(back == x, id="w2x(x2w(x))==x")
 
 
 @theorem(P, "inverse-w-x")
 def thm_inverse_w_x(w: "real"):
     requires(w >= 0)
     x = A.mixing_ratio2vmr(w)
-    ensures(A.vmr2mixing_ratio(x) == w, id="x2w(w2x(w))==w")
+    back = A.vmr2mixing_ratio(x)
+    ensures(back == w, id="x2w(w2x(w))==w")
+
+
+@theorem(P, "inverse-q-w")
+def thm_inverse_q_w(q: "real"):
+    requires(0 <= q, q < 1)
+    w = A.specific_humidity2mixing_ratio(q)
+    back = A.mixing_ratio2specific_humidity(w)
+    ensures(back == q, id="w2q(q2w(q))==q")
+
+
+@theorem(P, "inverse-w-q")
+def thm_inverse_w_q(w: "real"):
+    requires(w >= 0)
+    q = A.mixing_ratio2specific_humidity(w)
+    back = A.specific_humidity2mixing_ratio(q)
+    ensures(back == w, id="q2w(w2q(w))==w")
+
+
+@theorem(P, "inverse-x-q")
+def thm_inverse_x_q(x: "real"):
+    requires(0 <= x, x < 1)
+    q = A.vmr2specific_humidity(x)
+    back = A.specific_humidity2vmr(q)
+    ensures(back == x, id="q2x(x2q(x))==x")
+
+
+@theorem(P, "inverse-q-x")
+def thm_inverse_q_x(q: "real"):
+    requires(0 <= q, q < 1)
+    x = A.specific_humidity2vmr(q)
+    back = A.vmr2specific_humidity(x)
+    ensures(back == q, id="x2q(q2x(q))==q")
+
+
+# every two-step route equals the direct one ------------------------------------
+@theorem(P, "route-x-w-q")
+def thm_route_xwq(x: "real"):
+    requires(0 <= x, x < 1)
+    w = A.vmr2mixing_ratio(x)
+    q2 = A.mixing_ratio2specific_humidity(w)
+    q1 = A.vmr2specific_humidity(x)
+    ensures(q2 == q1, id="x->w->q == x->q")
+
+
+@theorem(P, "route-q-w-x")
+def thm_route_qwx(q: "real"):
+    requires(0 <= q, q < 1)
+    w = A.specific_humidity2mixing_ratio(q)
+    x2 = A.mixing_ratio2vmr(w)
+    x1 = A.specific_humidity2vmr(q)
+    ensures(x2 == x1, id="q->w->x == q->x")
+
+
+@theorem(P, "route-x-q-w")
+def thm_route_xqw(x: "real"):
+    requires(0 <= x, x < 1)
+    q = A.vmr2specific_humidity(x)
+    w2 = A.specific_humidity2mixing_ratio(q)
+    w1 = A.vmr2mixing_ratio(x)
+    ensures(w2 == w1, id="x->q->w == x->w")
+
+
+@theorem(P, "route-q-x-w")
+def thm_route_qxw(q: "real"):
+    requires(0 <= q, q < 1)
+    x = A.specific_humidity2vmr(q)
+    w2 = A.vmr2mixing_ratio(x)
+    w1 = A.specific_humidity2mixing_ratio(q)
+    ensures(w2 == w1, id="q->x->w == q->w")
+
+
+@theorem(P, "route-w-x-q")
+def thm_route_wxq(w: "real"):
+    requires(w >= 0)
+    x = A.mixing_ratio2vmr(w)
+    q2 = A.vmr2specific_humidity(x)
+    q1 = A.mixing_ratio2specific_humidity(w)
+    ensures(q2 == q1, id="w->x->q == w->q")
+
+
+@theorem(P, "route-w-q-x")
+def thm_route_wqx(w: "real"):
+    requires(w >= 0)
+    q = A.mixing_ratio2specific_humidity(w)
+    x2 = A.specific_humidity2vmr(q)
+    x1 = A.mixing_ratio2vmr(w)
+    ensures(x2 == x1, id="w->q->x == w->x")
+
+
+# increasing, 0 -> 0 ------------------------------------------------------------
+@theorem(P, "monotone-and-zero")
+def thm_monotone(a: "real", b: "real"):
+    requires(0 <= a, a < b, b < 1)
+    ensures(A.vmr2mixing_ratio(a) < A.vmr2mixing_ratio(b), id="x2w increasing")
+    ensures(A.vmr2specific_humidity(a) < A.vmr2specific_humidity(b), id="x2q increasing")
+    ensures(A.specific_humidity2mixing_ratio(a) < A.specific_humidity2mixing_ratio(b), id="q2w increasing")
+    ensures(A.specific_humidity2vmr(a) < A.specific_humidity2vmr(b), id="q2x increasing")
+    ensures(A.mixing_ratio2vmr(a) < A.mixing_ratio2vmr(b), id="w2x increasing")
+    ensures(A.mixing_ratio2specific_humidity(a) < A.mixing_ratio2specific_humidity(b), id="w2q increasing")
+    ensures(A.vmr2mixing_ratio(0) == 0, A.vmr2specific_humidity(0) == 0, A.specific_humidity2mixing_ratio(0) == 0,
+            A.specific_humidity2vmr(0) == 0, A.mixing_ratio2vmr(0) == 0, A.mixing_ratio2specific_humidity(0) == 0,
+            id="0->0")
+
+
+@theorem(P, "monotone-w-unbounded")
+def thm_monotone_w(a: "real", b: "real"):
+    requires(0 <= a, a < b)
+    ensures(A.mixing_ratio2vmr(a) < A.mixing_ratio2vmr(b), id="w2x increasing on w>=0")
+    ensures(A.mixing_ratio2specific_humidity(a) < A.mixing_ratio2specific_humidity(b), id="w2q increasing on w>=0")
+
+
+# ---------------------------------------------------------------- saturation pressures
+ICE = "exp(9.550426 - 5723.265 / T + 3.53068 * log(T) - 0.00728332 * T)"
+LIQ = ("exp(54.842763 - 6763.22 / T - 4.21 * log(T) + 0.000367 * T + tanh(0.0415 * (T - 218.8))"
+       " * (53.878 - 1331.22 / T - 9.44523 * log(T) + 0.014025 * T))")
+c_ice = contract(M + "e_eq_ice_mk", prop=P, params=dict(T="real"), elementwise=True,
+                 raises=[("T <= 0", ValueError)],
+                 ensures=["result == " + ICE, "result > 0"],
+                 canaries=["result > 1"])
+c_liq = contract(M + "e_eq_water_mk", prop=P, params=dict(T="real"), elementwise=True,
+                 raises=[("T <= 0", ValueError)],
+                 ensures=["result == " + LIQ, "result > 0"])
+c_ice.domain = c_liq.domain = {"T": (-50.0, 400.0)}
+
+TT = "constants.triple_point_water"
+c_mix = contract(M + "e_eq_mixed_mk", prop=P, params=dict(T="real"), elementwise=True,
+                 raises=[("T <= 0", ValueError)],
+                 ensures=["result == ite(T > %s, e_eq_water_mk(T), ite(T < %s - 23, e_eq_ice_mk(T), "
+                          "e_eq_ice_mk(T) + (e_eq_water_mk(T) - e_eq_ice_mk(T)) * ((T - %s + 23) / 23)**2))" % (TT, TT, TT)])
+c_mix.domain = {"T": (-50.0, 400.0)}
+
+
+@theorem(P, "mixed-phase")
+def thm_mixed(T: "real"):
+    requires(T > 0)
+    Tt = constants.triple_point_water
+    m = A.e_eq_mixed_mk(T)
+    ice = A.e_eq_ice_mk(T)
+    liq = A.e_eq_water_mk(T)
+    ensures(implies(T < Tt - 23, m == ice), id="ice below Tt-23")
+    ensures(implies(T > Tt, m == liq), id="liquid above Tt")
+    ensures(implies(T == Tt - 23, m == ice), id="continuous at Tt-23 (blend factor 0)")
+    ensures(implies(T == Tt, m == liq), id="continuous at Tt (blend factor 1)")
+    ensures(implies(Tt - 23 <= T and T <= Tt, min(ice, liq) <= m and m <= max(ice, liq)), id="between ice and liquid")
+    ensures(m > 0, id="positive")
+
+
+@theorem(P, "nonpositive-T-rejected")
+def thm_reject(T: "real"):
+    requires(T <= 0)
+    ensures(expect_raises(ValueError, A.e_eq_ice_mk, T), id="ice raises ValueError")
+    ensures(expect_raises(ValueError, A.e_eq_water_mk, T), id="water raises ValueError")
+    ensures(expect_raises(ValueError, A.e_eq_mixed_mk, T), id="mixed raises ValueError")
+
+
+@theorem(P, "ice-increasing")
+def thm_ice_increasing(T1: "real", T2: "real"):
+    requires(100 <= T1, T1 < T2, T2 <= 400)
+    ensures(A.e_eq_ice_mk(T1) < A.e_eq_ice_mk(T2), id="e_eq_ice_mk strictly increasing on [100,400] K")
+
+
+# ---------------------------------------------------------------- RH <-> VMR
+contract(M + "relative_humidity2vmr", prop=P, params=dict(RH="real", p="real", T="real", e_eq=Kind("posfunc")),
+         requires=["p > 0"], ensures=["result == RH * e_eq(T) / p"])
+contract(M + "vmr2relative_humidity", prop=P, params=dict(vmr="real", p="real", T="real", e_eq=Kind("posfunc")),
+         requires=["p > 0"], ensures=["result == vmr * p / e_eq(T)"])
+
+
+@theorem(P, "rh-vmr-inverse", E=Kind("posfunc"))
+def thm_rh(RH: "real", x: "real", p: "real", T: "real", E):
+    requires(p > 0)
+    v = A.relative_humidity2vmr(RH, p, T, e_eq=E)
+    back = A.vmr2relative_humidity(v, p, T, e_eq=E)
+    ensures(back == RH, id="vmr2rh(rh2vmr(RH))==RH for any positive saturation function")
+    r = A.vmr2relative_humidity(x, p, T, e_eq=E)
+    back2 = A.relative_humidity2vmr(r, p, T, e_eq=E)
+    ensures(back2 == x, id="rh2vmr(vmr2rh(x))==x for any positive saturation function")
+
+
+# ---------------------------------------------------------------- moist lapse rate
+GD = "constants.earth_standard_gravity / constants.isobaric_mass_heat_capacity"
+WS = "vmr2mixing_ratio(e_eq(T) / p)"
+contract(M + "moist_lapse_rate", prop=P, params=dict(p="real", T="real", e_eq=Kind("posfunc")),
+         requires=["100 <= T", "T <= 400", "p > e_eq(T)"],
+         ensures=["result > 0",
+                  "result <= " + GD,
+                  # quantitative form of 'approaches g/cp as the saturation mixing ratio vanishes'
+                  "%s - result <= %s * constants.heat_of_vaporization**2 * %s"
+                  " / (constants.isobaric_mass_heat_capacity * constants.gas_constant_water_vapor * T**2)" % (GD, GD, WS)])
